@@ -5,6 +5,14 @@ import json, os, subprocess
 VERIF = os.path.dirname(os.path.dirname(os.path.abspath(__file__)))
 
 CHECKS = {
+ "C01": dict(level="model_checking", design="5 C01",
+   text="spec/Store.tla defines what every table fed by a stream must contain (bags of point ids per group key, period and field; ViewCorrect) and TLC checks it for all interleavings of ingest and flush steps of a small instance; TLC-simulated behaviours over several tables and a view with mixed-type, missing, nil and extra dimensions, missing/extra/non-numeric values, duplicates, out-of-order and period-boundary timestamps are replayed on the real database, every query result of every step is bound to the specification's view by trace validation, and the values of an aggregate catalogue (SUM COUNT MIN MAX AVG WAVG + / * IF BOUNDED) are compared with the definitions over the points of each cell.",
+   note="Bounds: <= 10 points, 6 tables incl. one view per behaviour. Values of the aggregate catalogue are small integers (exact floats). Known finding D8 (array values) is listed in known_findings.json.",
+   technique="TLA+ model checking (TLC) + replay of TLC behaviours into the real code + trace validation"),
+ "C03": dict(level="model_checking", design="5 C03",
+   text="Action properties of spec/Store.tla (no flush, offset-file or old-file step changes the view; disk view = view right after the swap) are checked by TLC for every interleaving incl. sorted and truncating flushes; flush-heavy simulated behaviours (forced, sorted when a memory cap is set, the every-10th non-raw flush, clean restarts, queries naming field subsets) are replayed on the real database and every query result before, during and after every flush step is bound to the specification's view by trace validation.",
+   note="Timer-driven flushes are not scheduled by the replay (forced flushes only); PERCENTILE and shifted fields are not in this check's schema.",
+   technique="TLA+ model checking (TLC) + replay of TLC behaviours into the real code + trace validation"),
  "C02": dict(level="model_checking", design="5 C02",
    text="TLC explores every interleaving of ingest, flush, offset-file and crash/recovery steps of spec/Store.tla for small constants (invariants ExactlyOnce, AtMostOnce, MemLockStep, DiskLockStep, OffsetsOrdered); TLC-simulated behaviours with crash images at every instrumented step are replayed on the real database through scheduler gates, every recorded trace is validated against the specification with the same predicates evaluated at every step, and the caught-up end state is compared with the reference bag of point ids.",
    note="Crash = loss of all volatile state at a hook point (process-kill model: the page cache survives; fsync omissions are invisible). Bounds: <= 6 WAL entries, <= 5 flushes, <= 3 crash/restart rounds per behaviour. Trusted: TLC, the harness's decoding of query rows into bags.",
